@@ -18,10 +18,11 @@ EXPLANATION = (
     "image, reference definition, autolink) on destinations prefix + scheme word with symbolic letter case + ':' + suffix."
 )
 BOUNDS = {
-    "quick": "kernel: no length bound; alphabet lemma len(u)<=2; producers: scheme words file/data (all letters symbolic case), javascript/vbscript "
-             "(3 letters symbolic case), prefix = 0..1 free character from a 17-character menu or one of 6 entity/backslash spellings, colon "
-             "spelled ':' '&colon;' '&#58;' '&#x3a;'",
-    "thorough": "alphabet lemma len(u)<=3; producers with prefix free over ASCII + 7 non-ASCII representatives and 1 free suffix character; both presets",
+    "quick": "kernel (E2): URLs of any length over the URL-safe alphabet; alphabet lemma: normalizeLink on 1 free character (ASCII + 7 non-ASCII representatives); "
+             "producers: 5 frames (inline link, image, reference definition, autolink, angle-bracket destination) x scheme words file/data (all 4 letters symbolic case) and "
+             "javascript/vbscript (3 letters symbolic case) x a solver-chosen index into 25 concrete prefixes (controls, blanks, entity and backslash spellings) "
+             "and into 5 colon spellings",
+    "thorough": "plus (not core): alphabet lemma on 2 free characters; the same producers under commonmark (html on); one fully symbolic prefix character before file/javascript",
 }
 OUTSIDE = ("destinations with more free characters around the scheme word; IDN/punycode beyond concrete hosts; linkifier (library absent); "
            "custom validateLink overrides")
